@@ -2648,6 +2648,11 @@ def reshape(array: Array, newshape: int | Sequence[int],
     if isinstance(newshape, INT_CLASSES):
         newshape = newshape,
 
+    # (ints: the products below wrap around in fixed-width NumPy integers)
+    newshape = tuple(int(axis_len) if isinstance(axis_len, np.integer)
+                     else axis_len
+                     for axis_len in newshape)
+
     if newshape.count(-1) > 1:
         raise ValueError("can only specify one unknown dimension")
 
